@@ -429,7 +429,15 @@ static void h_op(void)
   else if (!strcmp(op, "echo")) {
     FILE *fp = tmpfile();
     status = esl_sqio_Echo(sqfp, sq, fp);
-    if (status == eslOK) op_file_hex(fp, "echo");
+    if (status == eslOK) {            /* the bytes written + the line number the handle is left with (Echo saves and restores it) */
+      int64_t n; char *buf;
+      fflush(fp); n = ftell(fp); rewind(fp);
+      buf = malloc(n + 1);
+      if (fread(buf, 1, n, fp) != (size_t) n) h_out("echo short-read");
+      else if (esl_sqio_IsAlignment(sqfp->format)) h_out("ok hex=%s", h_hex(buf, n));
+      else h_out("ok hex=%s ln=%" PRId64, h_hex(buf, n), (int64_t) sqfp->data.ascii.linenumber);
+      free(buf);
+    }
     else { h_out("%s%s", h_status(status), h_exception_seen ? " exc" : ""); dead = 1; }
     fclose(fp);
   }
